@@ -16,10 +16,12 @@ FAMILY = {
     "stake": ("MC_Stake.tla", "MC_Stake.cfg", (3, 1), [(4, 1)]),
     "gov": ("MC_Gov.tla", "MC_Gov.cfg", (4, 1), [(5, 1)]),
     "restart": ("MC_Restart.tla", "MC_Restart.cfg", (3, 1), [(4, 1), (3, 2)]),
+    # three validators on three seats, two warm-up blocks: the stake limiter is consulted (and refuses)
+    "limiter": ("MC_Limiter.tla", "MC_Limiter.cfg", (2, 1), [(2, 2)]),
 }
 PROP_FAMILY = {
-    "C02": ["value", "stake"], "C03": ["value"], "C04": ["value"], "C05": ["value", "gov"], "C16": ["value", "gov"],
-    "C10": ["stake"], "C11": ["stake"], "C12": ["stake"], "C13": ["stake"], "C14": ["stake", "gov"],
+    "C02": ["value", "stake"], "C03": ["value"], "C04": ["value"], "C05": ["value", "limiter", "gov"], "C16": ["value", "gov"],
+    "C10": ["stake", "limiter"], "C11": ["stake", "limiter"], "C12": ["stake"], "C13": ["stake"], "C14": ["stake", "gov"],
     "C15": ["gov"], "C19": ["value"], "C07": ["restart"],
 }
 SPECS = ("BigNat.tla", "RigoProps.tla", "RigoMon.tla", "RigoCore.tla", "MC_Rigo.tla")
@@ -70,7 +72,7 @@ def for_prop(prop):
     def go(tier):
         states = trans = 0
         runs = []
-        for fam in fams[:1] if tier == "quick" else fams:
+        for fam in ([f for f in fams if f == fams[0] or f == "limiter"] if tier == "quick" else fams):
             _, cfgname, quick, thorough = FAMILY[fam]
             for (b, t) in ([quick] if tier == "quick" else thorough):
                 res = run_family(fam, b, t, coverage=False)
